@@ -123,7 +123,8 @@ class _Json:
 
 NONDET_SEEDS = 12     # order selectors ("hash seeds") explored per path
 NONDET_FULL = 3       # sets up to this size: the selectors reach all n! orders
-NONDET_LIMIT = 6      # sets up to this size: the selectors reach every rotation of the canonical order and its reversal
+NONDET_LIMIT = 16     # sets up to this size: the selectors reach rotations of the canonical order and their reversals
+                      # (all 2n of them up to n = 6, the first NONDET_SEEDS beyond)
 
 
 class NondetSet(set):
